@@ -2,3 +2,4 @@ import Dalek.Props.C03.Formulas
 import Dalek.Props.C03.History
 import Dalek.Props.C03.Vector
 import Dalek.Props.C01.VecFormulas
+import Dalek.Props.C05.RefinementFiat
